@@ -852,6 +852,7 @@ func TestC14(t *testing.T) {
 				b, _ := json.Marshal(c)
 				st.NonTrivial(string(b), c)
 			}
+			st.SkipShrink(rt, c)
 			st.Report(rt, runC14(c), c)
 		})
 	})
